@@ -315,14 +315,16 @@ Definition wt_ok (ig : bool) (x w : option blob) : bool := wt_uptodate x w || (i
 Definition pop_path (ig : bool) (o x y w : option blob) : pmerge :=
   if oblob_eqb y o then PKeep                               (* the stash did not change the path *)
   else if oblob_eqb x y then PKeep                          (* same change already there *)
-  else if negb (wt_ok ig x w) then PRefuse                  (* local change / untracked file in the way: checked first *)
-  else if oblob_eqb x o then PTake y
+  else if oblob_eqb x o then (if wt_ok ig x w then PTake y else PRefuse)
   else match o, x, y with
        | Some ob, Some xb, Some yb =>
-           match merge3 ob xb yb with Some m => PTake (Some m) | None => PConflict end
-       | _, _, _ => PConflict                                (* modify/delete, add/add *)
+           if wt_ok ig x w then
+             match merge3 ob xb yb with Some m => PTake (Some m) | None => PConflict end
+           else PRefuse
+       | _, _, _ => PConflict        (* modify/delete, add/add: exit 1; depending on the work tree git refuses
+                                        cleanly or leaves conflicts -- both are [Dirty] (state not modelled) *)
        end.
-Inductive outcome := Done (g : git) | Failed (g : git) | Dirty.   (* Dirty: unmerged index, state not modelled *)
+Inductive outcome := Done (g : git) | Failed (g : git) | Dirty.   (* Dirty: exit 1, resulting state not modelled *)
 
 Definition stash_pop_index (g : git) : outcome :=
   match g_stash g with
@@ -342,6 +344,14 @@ Definition stash_pop_index (g : git) : outcome :=
         let pm := fun p => pop_path (ignored p) (tget (s_base e) p) (tget c p) (tget (s_wt e) p) (tget W p) in
         if existsb (fun p => match pm p with PRefuse => true | _ => false end) ks then Failed g
         else if existsb (fun p => match pm p with PConflict => true | _ => false end) ks then Dirty
+        else if has_index && existsb (fun p => match pm p with
+                                               | PKeep => negb (oblob_eqb (get_or (ipatch p) (tget c p)) (tget c p))
+                                                          && is_some (tget W p) && negb (oblob_eqb (tget W p) (tget c p))
+                                               | _ => false
+                                               end) ks then Dirty
+             (* the merge went through, but restoring the stashed index trips over a path the merge left alone
+                whose work-tree file differs from the index ("Entry ... not uptodate. Cannot merge"): exit 1 with
+                a half-applied state that is not modelled *)
         else
           let W' := upd W ks (fun p => match pm p with PTake v => v | _ => tget W p end) in
           let I' := if has_index then upd c ks (fun p => get_or (ipatch p) (tget c p))
@@ -366,7 +376,7 @@ Definition resolve (g : git) (r : refarg) : option (headref * N) :=
 Inductive cpath := CKeep | CSet (v : option blob) | CRefuse.
 Definition checkout_path (ig : bool) (h t i w : option blob) : cpath :=
   if oblob_eqb h t then CKeep                   (* same in both commits: local changes are carried over *)
-  else if negb (is_some i) && negb (is_some t) && is_some w then CRefuse
+  else if negb (is_some i) && negb (is_some t) && is_some w && negb ig then CRefuse
                                                 (* staged deletion, an untracked file of that name, the target
                                                    lacks the path: "untracked working tree files would be removed" *)
   else if oblob_eqb i t then CKeep              (* the index already has the target version *)
